@@ -171,10 +171,12 @@ def run(ctx):
                 for l, g in zip(first_tab, got):
                     rt, rb = l[3], l[4]
                     gt, gb = g[8][1].decode()[4:], g[9][1].decode()[4:]
-                    norm = {"GNU_IFUNC": "IFUNC", "GNU_UNIQUE": "UNIQUE"}
-                    if norm.get(gt, gt) != rt and not rt.startswith("<") and not gt.startswith(("LO", "?")):
+                    # readelf has its own spellings for OS- and processor-specific codes (THUMB_FUNC for STT_ARM_TFUNC …):
+                    # only the generic names are comparable
+                    generic = {"NOTYPE", "OBJECT", "FUNC", "SECTION", "FILE", "COMMON", "TLS", "LOCAL", "GLOBAL", "WEAK"}
+                    if (gt in generic or rt in generic) and gt != rt:
                         mism.append((l[0], gt, rt))
-                    if norm.get(gb, gb) != rb and not rb.startswith("<") and not gb.startswith(("LO", "?")):
+                    if (gb in generic or rb in generic) and gb != rb:
                         mism.append((l[0], gb, rb))
                 if mism:
                     ctx.violation("%s: type/binding names differ from readelf -sW: %r" % (os.path.basename(s), mism[:4]),
